@@ -5,6 +5,7 @@ import (
 	"go/constant"
 	"go/token"
 	"go/types"
+	"sort"
 	"strings"
 
 	"golang.org/x/tools/go/ssa"
@@ -2103,24 +2104,26 @@ func (c *Ctx) runByExistingCode() map[*ssa.Function]bool {
 
 // newStateOwners: which struct types (and whether package-level variables) carry state a property depends on.
 var newStateOwners = map[string][]string{
-	"C01": {"Target", "HealthCheck", "LoadBalancer"},
-	"C02": {"Router", "ServiceMap", "Service", "LoadBalancer", "Target", "inflightRequest"},
-	"C03": {"Target", "inflightRequest", "LoadBalancer", "Service", "PauseController"},
-	"C04": {"ServiceMap", "Router", "pathBinding", "routingContext"},
-	"C05": {"ServiceMap", "Router", "pathBinding"},
-	"C06": {"Router", "ServiceMap", "Service", "LoadBalancer", "Target", "HealthCheck", "StaticCertManager", "*globals"},
-	"C07": {"PauseController", "Service"},
-	"C08": {"PauseController", "Service", "ErrorPageMiddleware", "errorResponse"},
-	"C09": {"LoadBalancer", "Target", "HealthCheck", "*globals"},
-	"C10": {"RolloutController", "Service"},
-	"C11": {"Service", "ServiceOptions", "TargetOptions", "HealthCheckConfig", "PauseController", "RolloutController", "Router", "Target", "*globals"},
-	"C12": {"Router", "*globals"},
-	"C13": {"Router", "Target", "BufferPool", "Buffer", "RequestIDMiddleware", "RequestStartMiddleware", "RequestBufferMiddleware", "ResponseBufferMiddleware", "routingContext", "*globals"},
-	"C14": {"Buffer", "bufferedResponseWriter", "RequestBufferMiddleware", "ResponseBufferMiddleware", "*globals"},
-	"C15": {"Target", "ErrorPageMiddleware", "errorResponse", "inflightRequest", "*globals"},
-	"C16": {"Router", "Service", "ServiceMap", "StaticCertManager", "*globals"},
-	"C17": {"Target", "HealthCheck", "LoadBalancer", "PauseController", "Service"},
-	"C19": {"LoggingMiddleware", "loggerResponseWriter", "loggingRequestContext", "bufferedResponseWriter"},
+	// types all of whose methods are the property's concern; functions of other types count when the property's rules
+	// anchor on them (looked them up by name during this run)
+	"C01": {"LoadBalancer", "HealthCheck"},
+	"C02": {},
+	"C03": {"inflightRequest"},
+	"C04": {"ServiceMap", "pathBinding", "routingContext"},
+	"C05": {"ServiceMap", "pathBinding"},
+	"C06": {"StaticCertManager"},
+	"C07": {"PauseController"},
+	"C08": {"PauseController", "errorResponse"},
+	"C09": {"LoadBalancer", "HealthCheck"},
+	"C10": {"RolloutController"},
+	"C11": {"marshalledService"},
+	"C12": {},
+	"C13": {"BufferPool", "Buffer", "RequestIDMiddleware", "RequestStartMiddleware", "routingContext"},
+	"C14": {"Buffer", "bufferedResponseWriter", "RequestBufferMiddleware", "ResponseBufferMiddleware"},
+	"C15": {"ErrorPageMiddleware", "errorResponse"},
+	"C16": {"StaticCertManager"},
+	"C17": {"HealthCheck"},
+	"C19": {"LoggingMiddleware", "loggerResponseWriter", "loggingRequestContext"},
 }
 
 // newStateRule: state that does not exist in the reference tree (a struct field of one of the property's types, or a
@@ -2131,6 +2134,14 @@ var newStateOwners = map[string][]string{
 func (c *Ctx) newStateRule(rule string) {
 	owners := newStateOwners[c.prop]
 	isBaselineFn := func(fn *ssa.Function) bool { return c.runByExistingCode()[outer(fn)] }
+	// the reader is code this property reasons about: a function its rules looked up, or a method of one of its types
+	relevant := func(fn *ssa.Function) bool {
+		if c.prop == "C11" {
+			return true // nothing outside the state file survives a restart: any new state existing code reads matters
+		}
+		o := outer(fn)
+		return c.funcsSeen[o.String()] || ownerListed(owners, o)
+	}
 	// a use of the address of the state: does it observe the state's value?
 	observes := func(addr ssa.Value) (ssa.Instruction, bool) {
 		if addr.Referrers() == nil {
@@ -2180,7 +2191,16 @@ func (c *Ctx) newStateRule(rule string) {
 		return nil, false
 	}
 	n := 0
-	for _, tn := range owners {
+	all := []string{"*globals"}
+	for name, m := range c.server.Members {
+		if t, ok := m.(*ssa.Type); ok {
+			if _, isStruct := t.Type().Underlying().(*types.Struct); isStruct {
+				all = append(all, name)
+			}
+		}
+	}
+	sort.Strings(all)
+	for _, tn := range all {
 		if tn == "*globals" {
 			for _, pkg := range []*ssa.Package{c.server, c.cmd} {
 				for name, m := range pkg.Members {
@@ -2238,7 +2258,7 @@ func (c *Ctx) newStateRule(rule string) {
 								default:
 									obs = true
 								}
-								if obs && isBaselineFn(fn) && ownerListed(owners, outer(fn)) {
+								if obs && isBaselineFn(fn) && relevant(fn) {
 									reader = in
 								}
 							}
@@ -2277,7 +2297,7 @@ func (c *Ctx) newStateRule(rule string) {
 			n++
 			var reader ssa.Instruction
 			for _, fn := range c.modFuncs {
-				if !isBaselineFn(fn) {
+				if !isBaselineFn(fn) || !relevant(fn) {
 					continue
 				}
 				for _, b := range fn.Blocks {
